@@ -37,9 +37,9 @@ ta41VMU3u9UQfHxF
 -----END CERTIFICATE-----
 "#;
 
-const PW1: &str = "xk3!vQ9#pLm2zR7w-p1-Tq";
-const PW2: &str = "xk3!vQ9#pLm2zR7w-p2-Tq";
-const UPW: &str = "ux3!vQ9#pLm2zR7w-p4-Tq";
+const PW1: &str = "xk3!vQ9#pLm2zR7w-aa-Tq";
+const PW2: &str = "xk3!vQ9#pLm2zR7w-bb-Tq";
+const UPW: &str = "ux3!vQ9#pLm2zR7w-dd-Tq";
 pub const LIM: u64 = 3600; // DEFAULT_AUTH_SESSION_LIMITED_EXPIRY
 
 fn person(name: &str, n: u64, posix: bool) -> EntryInitNew {
